@@ -65,6 +65,8 @@ pub struct Net {
     v6: bool,
     /// descriptors hoarded by `fdhoard`
     hoard: Vec<std::fs::File>,
+    /// loopback ports reserved by `reserve`: bound, NOT listening (connections are refused) until `latelisten`
+    reserved: HashMap<usize, (tokio::net::TcpSocket, std::net::SocketAddr)>,
 }
 
 fn greeting() -> Vec<u8> {
@@ -167,7 +169,7 @@ impl Net {
         let dir = dir.join(format!("zmqnet-{}", std::process::id()));
         let _ = std::fs::create_dir_all(&dir);
         let v6 = std::net::TcpListener::bind("[::1]:0").is_ok();
-        Net { rt, socks: HashMap::new(), eps: vec![], raws: HashMap::new(), monitors: HashMap::new(), dir, nipc: 0, v6, hoard: vec![] }
+        Net { rt, socks: HashMap::new(), eps: vec![], raws: HashMap::new(), monitors: HashMap::new(), dir, nipc: 0, v6, hoard: vec![], reserved: HashMap::new() }
     }
 
     fn ep_name(&mut self, e: &Endpoint) -> String {
@@ -355,6 +357,34 @@ impl Net {
                 let s = num(1).unwrap();
                 let ep = match w[2] {
                     "unknown" => "tcp://127.0.0.1:1".parse::<Endpoint>().unwrap(),
+                    // near:<how>:ep#k — an endpoint that is NOT bound but close to the bound endpoint k: the same port on
+                    // another host / another spelling of the host, the same host on the next port, the path plus a suffix
+                    t if t.starts_with("near:") => {
+                        let mut it = t.splitn(3, ':');
+                        let (_, how, base) = (it.next(), it.next().unwrap_or(""), it.next().unwrap_or(""));
+                        let base = match self.ep_of(base) {
+                            Some(e) => e,
+                            None => return "bad-op no-ep".into(),
+                        };
+                        let text = base.to_string();
+                        let near = if let Some(rest) = text.strip_prefix("tcp://") {
+                            let (host, port) = rest.rsplit_once(':').unwrap();
+                            let port: u32 = port.parse().unwrap();
+                            match how {
+                                "host2" => format!("tcp://127.0.0.2:{}", port),
+                                "v6" => format!("tcp://[::1]:{}", port),
+                                "name" => format!("tcp://localhost:{}", port),
+                                "any" => format!("tcp://0.0.0.0:{}", port),
+                                _ => format!("tcp://{}:{}", host, if port >= 65535 { port - 1 } else { port + 1 }),
+                            }
+                        } else {
+                            format!("{}x", text)
+                        };
+                        match near.parse::<Endpoint>() {
+                            Ok(e) => e,
+                            Err(_) => return "bad-op near".into(),
+                        }
+                    }
                     t => match self.ep_of(t) {
                         Some(e) => e,
                         None => return "bad-op no-ep".into(),
@@ -970,6 +1000,79 @@ impl Net {
                     }
                 });
                 format!("ok errs={}", n)
+            }
+            // reserve c: a loopback TCP port that is bound but NOT listening — connecting to it is refused, nobody else can
+            // take it, and `latelisten c` turns it into a listener later
+            "reserve" => {
+                let _g = self.rt.enter();
+                let sock = match tokio::net::TcpSocket::new_v4() {
+                    Ok(s) => s,
+                    Err(_) => return "bad-op socket".into(),
+                };
+                if sock.bind("127.0.0.1:0".parse().unwrap()).is_err() {
+                    return "bad-op bind".into();
+                }
+                let addr = sock.local_addr().unwrap();
+                self.reserved.insert(num(1).unwrap(), (sock, addr));
+                "ok".into()
+            }
+            // connectnl s c <ms>: connect() to the reserved (non-listening) endpoint c; the call is given <ms> and then
+            // ABANDONED (its future dropped) if it has not returned
+            "connectnl" => {
+                let s = num(1).unwrap();
+                let addr = match self.reserved.get(&num(2).unwrap()) {
+                    Some((_, a)) => *a,
+                    None => return "bad-op no-reserved".into(),
+                };
+                let ms = num(3).unwrap_or(800) as u64;
+                let target = format!("tcp://{}", addr);
+                let mut sock = match self.socks.remove(&s) {
+                    Some(x) => x,
+                    None => return "bad-op no-sock".into(),
+                };
+                let r = self.rt.block_on(async {
+                    let f = async {
+                        match &mut sock {
+                            Sock::Pub(x) => x.connect(&target).await,
+                            Sock::Sub(x) => x.connect(&target).await,
+                            Sock::Req(x) => x.connect(&target).await,
+                            Sock::Rep(x) => x.connect(&target).await,
+                            Sock::Dealer(x) => x.connect(&target).await,
+                            Sock::Router(x) => x.connect(&target).await,
+                            Sock::Pull(x) => x.connect(&target).await,
+                            Sock::Push(x) => x.connect(&target).await,
+                            Sock::XPub(x) => x.connect(&target).await,
+                        }
+                    };
+                    match tokio::time::timeout(Duration::from_millis(ms), f).await {
+                        Err(_) => "pending".to_string(),
+                        Ok(Ok(())) => "ok".to_string(),
+                        Ok(Err(e)) => format!("err {}", err_class(&format!("{:?}", e))),
+                    }
+                });
+                self.socks.insert(s, sock);
+                r
+            }
+            // latelisten c <ms>: the reserved endpoint starts LISTENING now; does anything dial it within <ms>?
+            "latelisten" => {
+                let (sock, _) = match self.reserved.remove(&num(1).unwrap()) {
+                    Some(x) => x,
+                    None => return "bad-op no-reserved".into(),
+                };
+                let ms = num(2).unwrap_or(6500) as u64;
+                let _g = self.rt.enter();
+                let lst = match sock.listen(16) {
+                    Ok(l) => l,
+                    Err(_) => return "bad-op listen".into(),
+                };
+                drop(_g);
+                self.rt.block_on(async {
+                    match tokio::time::timeout(Duration::from_millis(ms), lst.accept()).await {
+                        Err(_) => "nobody".to_string(),
+                        Ok(Ok(_)) => "dialled".to_string(),
+                        Ok(Err(_)) => "accept-error".to_string(),
+                    }
+                })
             }
             "dropsock" => {
                 let _g = self.rt.enter();
